@@ -59,7 +59,7 @@ def gen_cfg(rng, world, fault_rate=0.35):
                          "cut": rng.randrange(0, 64)}
     return {"cache_remote": rng.random() < 0.65, "urljoin_cache": rng.choice(caches),
             "remote_cache": rng.choice(caches), "handler_schemes": schemes,
-            "base_mode": rng.choice(["from_schema", "from_schema", "explicit"]),
+            "base_mode": rng.choice(["from_schema", "explicit"]),
             "faults": faults, "use_store": True}
 
 
@@ -168,6 +168,10 @@ class Actor(object):
         """
         out = []
         if scope and not self.pending_cycle:
+            if self.depth() > 1:
+                # diagnostic probe only (private read): something is still pushed although the public
+                # resolution_scope may happen to look right (a leaked scope equal to the base)
+                self.probe("scope_stack_deeper_than_base_after_op")
             now = self.resolver.resolution_scope
             if now != self.scope0 and ended_in_exception:
                 gc.collect()
